@@ -734,20 +734,31 @@ class Interp:
 
     def opaque_attr(self, base: Opaque, attr, st):
         ov = st.heap.get("$opq", {}).get(attr)
-        if ov:
-            for term, val in reversed(ov):
-                if term.eq(base.term):
-                    return val
-            # a store to the same field of a possibly different object: scalars become a conditional, others undecided
-            basev = self._opaque_attr_base(base, attr, st)
-            out = basev
-            for term, val in ov:
-                if (is_num(val) or is_boolish(val)) and (is_num(out) or is_boolish(out)):
-                    out = zite(term == base.term, val, out)
+        if not ov:
+            return self._opaque_attr_base(base, attr, st)
+        # the stores to this field, in program order: a store to the same term overwrites, a store to another term MAY
+        # have hit this object (conditional for scalars), a havoc (loop write-set) makes the field an unknown function
+        # of the object
+        out = None
+
+        def cur():
+            return out if out is not None else self._opaque_attr_base(base, attr, st)
+        for term, val in ov:
+            if isinstance(term, str) and term == "*":
+                bv = cur()
+                if not (is_num(bv) or is_boolish(bv)):
+                    raise Unsupported(f"field {attr} of foreign objects is written in a loop and is not a scalar")
+                zb = to_z3(bv)
+                out = z3.Function(f"{val}#{attr}", ObjS, zb.sort())(base.term)
+            elif term.eq(base.term):
+                out = val
+            else:
+                bv = cur()
+                if (is_num(val) or is_boolish(val)) and (is_num(bv) or is_boolish(bv)):
+                    out = zite(term == base.term, val, bv)
                 else:
                     raise Unsupported(f"field {attr} was stored on another object that may alias this one")
-            return out
-        return self._opaque_attr_base(base, attr, st)
+        return out
 
     def _opaque_attr_base(self, base: Opaque, attr, st):
         cls = base.cls
